@@ -331,16 +331,8 @@ fn ring2(ca: usize, cb: usize, sa: usize, sb: usize, wa: usize, wb: usize) -> (R
     (a, b, m)
 }
 
-/// symmetric two-member ring, counts in the orphan map and strong counts symbolic within the unwind
-/// bound, weak symbolic: every key ends Gone, all members Gone before the first call-out, none released
-/// before the last, weak-1 each, tables released once each, outsider untouched.
-#[kani::proof]
-#[kani::unwind(7)]
-fn u6_drop_cycle_ring2() {
-    let (ca, cb, sa, sb): (usize, usize, usize, usize) = (kani::any(), kani::any(), kani::any(), kani::any());
+fn run_ring2(ca: usize, cb: usize, sa: usize, sb: usize) {
     let (wa, wb): (usize, usize) = (kani::any(), kani::any());
-    kani::assume(1 <= ca && ca <= 3 && 1 <= cb && cb <= 3);
-    kani::assume(1 <= sa && sa <= ca && 1 <= sb && sb <= cb);
     kani::assume(wa >= 2 && wb >= 2);
     let (a, b, m) = ring2(ca, cb, sa, sb, wa, wb);
     let c = Rc::new(9u8);
@@ -352,6 +344,23 @@ fn u6_drop_cycle_ring2() {
     kani::assert(unsafe { vmap::TAGGED_DROPS } == 2, "U6.drop_cycle.each_member_table_released_exactly_once");
     kani::assert(c.inner().strong() == sc && c.inner().weak() == wc, "U6.drop_cycle.frame.non_member_counters_untouched");
     core::mem::forget((a, b, c));
+}
+
+/// symmetric two-member ring, one recorded handle each way, weak counts (members and an outsider's
+/// counters) symbolic: every key ends Gone, all members Gone before the first call-out, none released
+/// before the last, weak-1 each, tables released once each, outsider untouched.
+#[kani::proof]
+#[kani::unwind(7)]
+fn u6_drop_cycle_ring2() {
+    run_ring2(1, 1, 1, 1);
+}
+
+/// parallel edges and an over-recorded member: a is held twice by b (strong 2), b is recorded twice but
+/// held once (strong 1 < count 2)
+#[kani::proof]
+#[kani::unwind(7)]
+fn u6_drop_cycle_ring2_parallel() {
+    run_ring2(2, 2, 2, 1);
 }
 
 /// a member with more incoming than outgoing group references: a holds itself (through a clone) and b
